@@ -1,16 +1,17 @@
 --------------------------- MODULE HotParamQps_MC ---------------------------
 (* Bounded instances of HotParamQps for exhaustive TLC runs and for scenario generation    *)
 (* (ACTION_CONSTRAINT Emit prints the history leading to every generated transition).      *)
-(* The configuration record is assembled from scalar constants so that a .cfg can set it.  *)
+(* The configuration record is assembled from scalar constants so that a .cfg can set it;  *)
+(* its capacity is derived from PCap (explicit, or 0 = default from CapBase / CapMax).      *)
 EXTENDS HotParamQps, Json
 
-CONSTANTS MCMode, MCT, MCB, MCD, MCMQ, MCItemsSel, MCCap
+CONSTANTS MCMode, MCT, MCB, MCD, MCMQ, MCItemsSel
 
 MCItems == CASE MCItemsSel = 0 -> << >>
              [] MCItemsSel = 1 -> [a |-> 0, b |-> 5]
              [] MCItemsSel = 2 -> [a |-> 3]
              [] OTHER          -> [b |-> 1]
-MCCf == [mode |-> MCMode, T |-> MCT, B |-> MCB, D |-> MCD, MQ |-> MCMQ, items |-> MCItems, cap |-> MCCap]
+MCCf == [mode |-> MCMode, T |-> MCT, B |-> MCB, D |-> MCD, MQ |-> MCMQ, items |-> MCItems, cap |-> EffCap(PCap, MCD, CapBase, CapMax)]
 
 Emit == PrintT(ToJson(h'))
 =============================================================================
